@@ -248,13 +248,13 @@ CHECK = {
             "them) and tangent sets (k0 in [0.99,1]) on ellipsoids with e in {0, 0.1, GRS80, random}; points within +-8 deg / +-30 deg "
             "of the origin incl. the standard parallels, the origin, the central meridian and the domain ends; isometric-latitude "
             "round trips; non-trivial = every output finite",
-    "trusted": ["hand-written model coq/LambertModel.v tied by differential execution (this run)",
+    "trusted": ["translator translate/srcfuns.py (clang AST of pure leaf functions -> Gallina)", "hand-written model coq/LambertModel.v tied by differential execution (this run)",
                 "translator translate/constants.py (EPSILON, pole-test constant 1e-9)", "extraction, ocaml/numf.ml, ocaml/drv_C03.ml",
                 "harness/C03.cpp with a per-call CPU-time limit (harness/geoA.hpp), mpmath oracle (5-point differentiation, tolerance 2e-8)"],
     "assumptions": ["theorems are over the reals; binary64 behaviour is observed on generated inputs", "std::pow(x,2) is modelled as x*x"],
     "run_timeout": 1200,
     "manifest": {
-        "text": "Coq theorems over the reals about a model of LambertConverter: derivative of the isometric latitude (Coquelicot), "
+        "text": "SYNTACTIC TIE: the closed-form leaves (computeIsometricLatitude, computeGrandeNormal, toLambert and the two EarthEllipsoid radii) are re-translated from the clang AST of the current source into Gallina terms on every run (translate/srcfuns.py -> coq/gen/SrcFuns.v) and proved equal, over the reals, to the model functions the theorems are about. Coq theorems over the reals about a model of LambertConverter: derivative of the isometric latitude (Coquelicot), "
                 "the partial derivatives of toLambert are orthogonal and give equal scale along meridian and parallel (conformal), "
                 "scale 1 on both standard parallels / k0 on the tangent parallel, origin -> false origin, central meridian -> x = x0, "
                 "toWGS84 recovers isometric latitude and longitude exactly on cones of either hemisphere, the true latitude is a "
